@@ -116,8 +116,12 @@ func (t *tracer) Subscribe() chan ITrace {
 func (t *tracer) SubscribeChannel(channel chan ITrace) chan ITrace {
 	okCh := make(chan struct{}, 1)
 	sub := subscription{channel: channel, ok: okCh}
-	t.subscription <- sub
-	<-okCh
+	select {
+	case t.subscription <- sub:
+		<-okCh
+	case <-t.done:
+		// the tracer has terminated: nothing will ever be delivered
+	}
 	return channel
 }
 
@@ -141,7 +145,13 @@ loop:
 }
 
 func (t *tracer) Send(trace ITrace) {
-	t.traces <- trace
+	// Once the tracer has terminated nobody receives any more: a late trace
+	// (e.g. from a goroutine that is not a registered sender) is dropped
+	// instead of blocking its sender for ever.
+	select {
+	case t.traces <- trace:
+	case <-t.done:
+	}
 }
 
 func (t *tracer) RegisterSender() ISenderHandle {
